@@ -223,7 +223,7 @@ m('inplace-truncate-on-error', 'R07g', DISK,
 m('tempfile-not-exclusive', 'R07g', 'utils/tempfile/tempfile.go',
   'const flags = os.O_RDWR | os.O_CREATE | os.O_EXCL',
   'const flags = os.O_RDWR | os.O_CREATE | os.O_TRUNC')
-m('serve-compressed-without-header-check', 'R08e,R08d', CB,
+m('serve-compressed-without-header-check', 'R08d', CB,
   '''func GetUncompressedReadCloser(zstd zstdimpl.ZstdImpl, f *os.File, expectedSize int64, offset int64) (io.ReadCloser, error) {
 	h, err := readHeader(f)
 	if err != nil {
@@ -239,3 +239,12 @@ m('serve-compressed-without-header-check', 'R08e,R08d', CB,
 	if h == nil {
 		return f, nil
 	}''')
+m('serve-compressed-file-directly', 'R08e', DISK,
+  '''					// The file is compressed.
+					if zstd {
+						rc, err = casblob.GetZstdReadCloser(c.zstd, f, size, offset)''',
+  '''					// The file is compressed.
+					if zstd && offset == 0 {
+						rc = f
+					} else if zstd {
+						rc, err = casblob.GetZstdReadCloser(c.zstd, f, size, offset)''')
